@@ -120,7 +120,7 @@ def weave(repo, dst, variant="A", features=(), quiet=False):
     # (2) harness modules + (3) spec
     for rel, hfile in C.MODULES:
         # a_*.rs only exist in variant A, b_*.rs only in variant B (hand-written stubs vs. contract attributes)
-        if (variant == "A" and hfile.startswith("b_")) or (variant == "B" and hfile.startswith("a_")):
+        if (variant == "A" and re.match(r"(g_)?b_", hfile)) or (variant == "B" and re.match(r"(g_)?a_", hfile)):
             continue
         p = os.path.join(dst, rel)
         if not os.path.exists(p):
@@ -130,7 +130,9 @@ def weave(repo, dst, variant="A", features=(), quiet=False):
         habs = os.path.join(dst, "src", "__vh", hfile)
         modname = "__vh_" + re.sub(r"\W", "_", hfile[:-3])
         with open(p, "a") as f:
-            f.write(f'\n#[cfg(kani)]\n#[path = "{habs}"]\nmod {modname};\n')
+            extra = getattr(C, "MODULE_CFG", {}).get(hfile)
+            cfg = f"all(kani, {extra})" if extra else "kani"
+            f.write(f'\n#[cfg({cfg})]\n#[path = "{habs}"]\nmod {modname};\n')
         report["modules"].append({"file": rel, "harness": hfile})
     p = touch("src/lib.rs")
     with open(p, "a") as f:
@@ -138,7 +140,7 @@ def weave(repo, dst, variant="A", features=(), quiet=False):
     # crate-level feature gates some harnesses need go to the top of lib.rs
     with open(p) as f:
         s = f.read()
-    s = "#![cfg_attr(kani, allow(unused_imports, dead_code, unused_variables, unused_mut, non_snake_case))]\n" + s
+    s = "#![cfg_attr(kani, recursion_limit = \"1024\")]\n#![cfg_attr(kani, allow(unused_imports, dead_code, unused_variables, unused_mut, non_snake_case))]\n" + s
     with open(p, "w") as f:
         f.write(s)
 
